@@ -9,11 +9,3 @@ impl Writer {
         && self.compression == o.compression && self.compression_threshold == o.compression_threshold
     }
 }
-pub open spec fn item_op(it: Item) -> OpV {
-    OpV::Item { keyspace_id: it.keyspace.id, key: it.key@, value: it.value@, value_type: it.value_type }
-}
-pub open spec fn ops_of(items: Seq<Item>) -> Seq<OpV> { Seq::new(items.len(), |i: int| item_op(items[i])) }
-pub open spec fn within_limits(key: Seq<u8>, value: Seq<u8>) -> bool { key.len() <= 0xffff && value.len() <= 0xffff_ffff }
-pub open spec fn items_within_limits(items: Seq<Item>) -> bool {
-    forall|i: int| 0 <= i < items.len() ==> within_limits(#[trigger] items[i].key@, items[i].value@)
-}
